@@ -376,20 +376,7 @@ func (g *gen) execFunc(fr *frame, entry *node, st0 *State) []exitRec {
 				}
 				excl, whole := g.loopModifiesExcl(e, ls, ord)
 				hdr[b].excl, hdr[b].whole = excl, whole
-				nxPre := g.svGet(before, "$nxt", "Int")
-				var names []string
-				for name := range g.allVars {
-					names = append(names, name)
-				}
-				sort.Strings(names)
-				for _, name := range names {
-					srt := g.allVars[name]
-					nt, ot := g.svGet(st, name, srt), g.svGet(before, name, srt)
-					if nt == ot || whole[name] || skipFrameVar(name) {
-						continue
-					}
-					cur.assume(frameTerm(name, srt, nt, ot, nxPre, excl[name], true))
-				}
+				g.assumeLoopFrame(cur, st, before, excl, whole)
 			}
 			if ls != nil {
 				e := g.topEnv(st, &State{m: map[string]string{}}, nil)
@@ -683,23 +670,45 @@ func (g *gen) flow(fr *frame, b, s *ssa.BasicBlock, cur *node, st *State, conds 
 		ls := g.loopSpecFor(fr, ord)
 		g.assertInvariants(fr, cur, st, s, ord, ls, pv, "preserved", conds)
 		if ls != nil && ls.HasModifies {
-			nxPre := g.svGet(h.before, "$nxt", "Int")
-			var names []string
-			for name := range g.allVars {
-				names = append(names, name)
-			}
-			sort.Strings(names)
-			for _, name := range names {
-				srt := g.allVars[name]
-				nt, ot := g.svGet(st, name, srt), g.svGet(h.st, name, srt)
-				if nt == ot || h.whole[name] || skipFrameVar(name) {
-					continue
-				}
-				g.addObl(cur, "loop-frame", fmt.Sprintf("loopframe:%d:%s", ord, name), "loop modifies clause", g.pos(firstPos(s)),
-					implies(and(conds...), frameTerm(name, srt, nt, ot, nxPre, h.excl[name], false)), false)
-			}
+			g.checkLoopFrame(cur, st, h.st, h.excl, h.whole, fmt.Sprintf("loopframe:%d", ord), g.pos(firstPos(s)), conds)
 		}
 		return
 	}
 	in[s] = append(in[s], predRec{b, cur, st.clone(), conds})
+}
+
+// Loop frames are stated for locations that existed when the function was entered (that is what
+// the function-level frame needs); locations allocated by the function are covered by invariants.
+func (g *gen) assumeLoopFrame(n *node, st, before *State, excl map[string][]string, whole map[string]bool) {
+	nx0 := g.c.declareConst("$nxt@init", "Int")
+	var names []string
+	for name := range g.allVars {
+		names = append(names, name)
+	}
+	sort.Strings(names)
+	for _, name := range names {
+		srt := g.allVars[name]
+		nt, ot := g.svGet(st, name, srt), g.svGet(before, name, srt)
+		if nt == ot || whole[name] || skipFrameVar(name) {
+			continue
+		}
+		n.assume(frameTerm(name, srt, nt, ot, nx0, excl[name], true))
+	}
+}
+
+func (g *gen) checkLoopFrame(n *node, st, hst *State, excl map[string][]string, whole map[string]bool, prefix, pos string, conds []string) {
+	nx0 := g.c.declareConst("$nxt@init", "Int")
+	var names []string
+	for name := range g.allVars {
+		names = append(names, name)
+	}
+	sort.Strings(names)
+	for _, name := range names {
+		srt := g.allVars[name]
+		nt, ot := g.svGet(st, name, srt), g.svGet(hst, name, srt)
+		if nt == ot || whole[name] || skipFrameVar(name) {
+			continue
+		}
+		g.addObl(n, "loop-frame", prefix+":"+name, "loop modifies clause", pos, implies(and(conds...), frameTerm(name, srt, nt, ot, nx0, excl[name], false)), false)
+	}
 }
